@@ -254,6 +254,13 @@ impl<T: Send> Desync<T> {
     pub fn verif_queue(&self) -> &Arc<JobQueue> {
         &self.queue
     }
+
+    ///
+    /// (Verification hook) The pointer to the protected value that every operation of this object dereferences
+    ///
+    pub fn verif_data(&self) -> *mut T {
+        self.data
+    }
 }
 
 impl<T: Send> Drop for Desync<T> {
